@@ -108,10 +108,12 @@ pub fn cross_decode(ctx: &mut Ctx, case: &DictCase) {
         } else {
             ctx.report.count(&format!("index-store:groups-{}", (layout.len() + 127) / 128));
             let want_ids: Vec<u64> = probes.iter().map(|o| layout.iter().rposition(|l| l.0 <= *o).unwrap_or(0) as u64).collect();
-            let want = format!("{}|{}", expected.join(","), nats_field(&want_ids));
+            // third part: the writer model (`groupFields` + `bitPack`) re-encodes every store block to
+            // the bytes of the file, with the slopes / widths read from the metadata
+            let want = format!("{}|{}|reenc=1", expected.join(","), nats_field(&want_ids));
             if resp != want {
                 let (ra, wa) = (resp.split('|').next().unwrap_or(""), want.split('|').next().unwrap_or(""));
-                let what = if ra != wa { "block addresses" } else { "ordinal → block search" };
+                let what = if ra != wa { "block addresses" } else if resp.ends_with("reenc=0") { "bytes when re-encoding the store blocks with the writer model" } else { "ordinal → block search" };
                 ctx.report.violation("model", "C15:index-store-model", format!("Lean block-address-store model reads different {what} from the real index bytes ({} blocks)", layout.len()), cj.clone());
             }
             // the real index agrees with the same addresses (through the public routing call)
@@ -432,6 +434,32 @@ pub fn merges(ctx: &mut Ctx, rng: &mut Rng) {
         _ => None,
     };
     check_merge(ctx, &inputs, vk, block_len);
+}
+
+/// the bit packer the block-address store is written with, against the Lean `bitPack`
+pub fn bitpacker(ctx: &mut Ctx, rng: &mut Rng) {
+    let n = rng.usize_below(40);
+    let mut vals = vec![];
+    let mut widths = vec![];
+    for _ in 0..n {
+        let w = *rng.pick(&[1u64, 2, 7, 8, 9, 13, 31, 32, 33, 47, 55, 56, 63, 64]);
+        let v = if w == 64 { rng.next_u64() } else { rng.next_u64() & ((1u64 << w) - 1) };
+        let v = if rng.chance(1, 8) { if w == 64 { u64::MAX } else { (1u64 << w) - 1 } } else { v };
+        vals.push(v);
+        widths.push(w);
+    }
+    let mut out: Vec<u8> = vec![];
+    let mut bp = tantivy_bitpacker::BitPacker::new();
+    for (v, w) in vals.iter().zip(widths.iter()) {
+        bp.write(*v, *w as u8, &mut out).unwrap();
+    }
+    bp.flush(&mut out).unwrap();
+    let model = ctx.model.ask(&format!("C15 bitpack {} {}", nats_field(&vals), nats_field(&widths)));
+    ctx.report.case(&format!("bitpack|{}|{}", nats_field(&vals), nats_field(&widths)), n >= 2);
+    ctx.report.count("bitpack:cases");
+    if model != hex(&out) {
+        ctx.report.violation("model", "C15:bitpacker-model", format!("BitPacker wrote {} for {} fields, the Lean bitPack {}", hex(&out), n, model), json!({"kind": "bitpack", "vals": nats_field(&vals), "widths": nats_field(&widths)}));
+    }
 }
 
 include!("c15_fst_col.rs");
